@@ -471,7 +471,6 @@ def r7(ctx, chk):
                    function="info['relative-type-regex']", line=None)
 
 
-
 def unit_spelling_rule(ctx, chk, rule):
     """`get_kwargs` turns the TEXT matched by the unit group of PATTERN into a relativedelta keyword (`unit + 's'`).  PATTERN is compiled
     case-insensitively, so on its own it also accepts 'SECOND' or 'ſecond' (U+017F folds to s) - and relativedelta(**{'ſeconds': 1}) is a
@@ -489,414 +488,6 @@ def unit_spelling_rule(ctx, chk, rule):
         parts = {x.strip().split(".")[-1] for x in (txt or "").split("|")}
         return bool(parts & {"I", "IGNORECASE"})
     pattern_folds = folds(fl) or "(?i" in pat
-    f = ix.func(FP + ":FreshnessDateDataParser._are_all_words_units")
-    skip = None
-    for n in iter_own_nodes(f.node):
-        if isinstance(n, ast.Assign) and isinstance(n.value, ast.List) and len(n.value.elts) >= 2:
-            v = fold_list(n.value, f, ix)
-            if v is not None and any("ago" in x for x in v):
-                skip = v
-    if skip is None:
-        raise AnalysisError(rule, "_are_all_words_units.skip is not a list of constant patterns")
-    import regex as re
-    pat = re.compile("|".join(skip))
-    for u in units + ["ago", "in", "15"]:
-        chk.ob(rule, "word filter accepts %r" % u, bool(pat.match(u)),
-               "a canonical word is rejected by _are_all_words_units, so phrases using it parse to None",
-               key={"table": "skip", "unit": u}, file=f.file, function=f.qual, line=f.node.lineno)
-    # PATTERN is built from _UNITS, case-insensitively, with a word boundary after the unit
-    from ..core.rx import module_regex
-    ptxt, flags = module_regex(ix, FP, "PATTERN")
-    ok = ("(" + "|".join(units) + ")\\b") in ptxt and ("re.I" in flags or "IGNORECASE" in flags)
-    chk.ob(rule, "PATTERN = <number>\\s*(<_UNITS>)\\b, IGNORECASE", ok,
-           "the count/unit regex no longer spells exactly the unit table followed by a word boundary",
-           key={"table": "PATTERN", "unit": "*"}, file="dateparser/freshness_date_parser.py", function="<module>",
-           line=None, text=ptxt)
-    # relativedelta accepts unit+'s' for every unit except those deleted before the call
-    try:
-        from dateutil.relativedelta import relativedelta
-        rd_kw = set(inspect.signature(relativedelta.__init__).parameters) - {"self"}
-    except Exception:  # pragma: no cover
-        rd_kw = {"years", "months", "days", "leapdays", "weeks", "hours", "minutes", "seconds", "microseconds"}
-        chk.assume("dateutil not importable: relativedelta keyword set taken from its documentation")
-    gk = ix.func(FP + ":FreshnessDateDataParser.get_kwargs")
-    deleted = set()
-    for n in iter_own_nodes(gk.node):
-        if isinstance(n, ast.Delete):
-            for t in n.targets:
-                if isinstance(t, ast.Subscript) and isinstance(t.slice, ast.Constant):
-                    deleted.add(t.slice.value)
-    for u in units:
-        k = u + "s"
-        ok = k in rd_kw or k in deleted
-        chk.ob(rule, "relativedelta accepts %s (or it is folded away first)" % k, ok,
-               "relativedelta(**kwargs) raises TypeError for this unit",
-               key={"table": "relativedelta", "unit": u}, file=gk.file, function=gk.qual, line=gk.node.lineno)
-    # the future-word table that decides whether a translated 'in' is kept
-    cf = ix.func("dateparser.languages.locale:Locale._clear_future_words")
-    fw = None
-    for n in iter_own_nodes(cf.node):
-        if isinstance(n, ast.Assign) and isinstance(n.value, (ast.Set, ast.List, ast.Tuple)):
-            try:
-                fw = set(ast.literal_eval(n.value))
-            except Exception:
-                pass
-    if fw is None:
-        raise AnalysisError(rule, "Locale._clear_future_words: word set literal not found")
-    for u in units:
-        chk.ob(rule, "unit %s ∈ Locale._clear_future_words' table" % u, u in fw,
-               "a translated 'in' next to this unit is dropped, flipping 'in N %ss' to the past "
-               "whenever the phrase is not matched by a whole-phrase pattern" % u,
-               key={"table": "freshness_words", "unit": u}, file=cf.file, function=cf.qual, line=cf.node.lineno)
-
-
-def r2(ctx, chk):
-    rule = "C04.R2"
-    ix = ctx.ix
-    ef, ex = build_effects(ctx, chk, rule)
-    tf = ix.func("dateparser.date:_DateLocaleParser._try_freshness_parser")
-    tries = [s for s in iter_own_stmts(tf.node.body) if isinstance(s, ast.Try)]
-    call_in_try = None
-    for t in tries:
-        for n in ast.walk(ast.Module(body=t.body, type_ignores=[])):
-            if isinstance(n, ast.Call) and ast.unparse(n.func).endswith("get_date_data"):
-                call_in_try = t
-    chk.ob(rule, "_try_freshness_parser calls the freshness parser inside a try", call_in_try is not None,
-           "the freshness parser runs without the handler that turns overflow into None",
-           key={"function": tf.key, "construct": "call inside try"}, file=tf.file, function=tf.qual,
-           line=tf.node.lineno)
-    if call_in_try is None:
-        return
-    names = []
-    for h in call_in_try.handlers:
-        names += ef.handler_names(h, tf)
-    target = ix.func(FP + ":FreshnessDateDataParser.get_date_data")
-    classes = sorted({e for e, _ in ef.escapes(target.key)})
-    chk.floor(rule + ".mayraise", len(classes), 2, "exception classes in the freshness parser's may-raise set")
-    for c in classes:
-        ok = any(nm is None or ef.h.issub(c, nm) for nm in names)
-        w = [o for (e, o) in ef.escapes(target.key) if e == c][:1]
-        chk.ob(rule, "handler of _try_freshness_parser covers %s" % c, ok,
-               "%s (e.g. from %s) is not turned into None" % (c, w),
-               key={"function": tf.key, "construct": "handler covers " + c}, file=tf.file, function=tf.qual,
-               line=call_in_try.lineno)
-    for h in call_in_try.handlers:
-        body_ok = all(isinstance(s, (ast.Pass,)) or (isinstance(s, ast.Return) and (
-            s.value is None or (isinstance(s.value, ast.Constant) and s.value.value is None))) for s in h.body)
-        chk.ob(rule, "handler `except %s` yields None" % (ast.unparse(h.type) if h.type else ""), body_ok,
-               "the handler does something other than returning None",
-               key={"function": tf.key, "construct": "handler returns None"}, file=tf.file, function=tf.qual,
-               line=h.lineno)
-
-
-def r3(ctx, chk):
-    rule = "C04.R3"
-    f = ctx.ix.func(FP + ":FreshnessDateDataParser._parse_date")
-    params = f.params()
-
-    def atom(e):
-        # re.search(r"\bWORD\b", subject)
-        if isinstance(e, ast.Call) and ast.unparse(e.func) in ("re.search", "regex.search") and len(e.args) == 2:
-            p = fold_str(e.args[0], f, ctx.ix)
-            subj = ast.unparse(e.args[1])
-            if p and p.startswith("\\b") and p.endswith("\\b"):
-                w = p[2:-2]
-                if w in ("in", "ago") and subj == params[1]:
-                    return w
-                if w in ("future", "past") and subj == params[3]:
-                    return w
-        return None
-
-    found = 0
-    for s in iter_own_stmts(f.node.body):
-        if not isinstance(s, ast.If):
-            continue
-        def sign(block):
-            for b in block:
-                if isinstance(b, ast.Assign) and isinstance(b.value, ast.BinOp) and isinstance(b.value.op, (ast.Add, ast.Sub)) \
-                        and ast.unparse(b.value.left) == params[2]:
-                    return "+" if isinstance(b.value.op, ast.Add) else "-"
-            return None
-        sa, sb = sign(s.body), sign(s.orelse)
-        if sa is None and sb is None:
-            continue
-        found += 1
-        form = G.to_formula(s.test, atom)
-        free = G.atoms_of(form, ("free",))
-        spec = ("or", ("atom", "in"), ("and", ("atom", "future"), ("not", ("atom", "ago"))))
-        if sa == "-" and sb == "+":
-            form = G.neg(form)
-            sa, sb = sb, sa
-        ok = sa == "+" and sb == "-" and not free
-        diff = None
-        if ok:
-            diff = G.equivalent(form, spec, {"in", "ago", "future"})
-            ok = diff is None
-        chk.ob(rule, "_parse_date adds the delta iff in ∨ (future ∧ ¬ago), else subtracts; test = %s" % G.show(form), ok,
-               "direction decision differs from the specification%s" % (
-                   " under " + str({k: v for k, v in diff.items()}) if diff else
-                   " (branches %s/%s, unrecognised atoms %s)" % (sa, sb, sorted(free))),
-               key={"function": f.key, "construct": "direction truth table"}, file=f.file, function=f.qual,
-               line=s.lineno, text=ast.unparse(s.test))
-    chk.floor(rule, found, 1, "direction branches in _parse_date")
-    # the delta is relativedelta(**kwargs) of get_kwargs(date_string)
-    txt = {ast.unparse(n) for n in iter_own_nodes(f.node) if isinstance(n, ast.Call)}
-    ok = any(t.startswith("relativedelta(**") for t in txt) and any("get_kwargs(%s)" % params[1] in t for t in txt)
-    chk.ob(rule, "delta = relativedelta(**get_kwargs(date_string))", ok, "",
-           key={"function": f.key, "construct": "relativedelta(**kwargs)"}, file=f.file, function=f.qual,
-           line=f.node.lineno)
-
-
-def _linear(e, syms):
-    """coefficients {symbol: c, 1: const} of a +,-,* expression, or None"""
-    txt = " ".join(ast.unparse(e).split())
-    for name, forms in syms.items():
-        if txt in forms:
-            return {name: 1}
-    if isinstance(e, ast.Constant) and isinstance(e.value, (int, float)):
-        return {1: e.value}
-    if isinstance(e, ast.BinOp):
-        a, b = _linear(e.left, syms), _linear(e.right, syms)
-        if a is None or b is None:
-            return None
-        if isinstance(e.op, (ast.Add, ast.Sub)):
-            s = 1 if isinstance(e.op, ast.Add) else -1
-            out = dict(a)
-            for k, v in b.items():
-                out[k] = out.get(k, 0) + s * v
-            return out
-        if isinstance(e.op, ast.Mult):
-            if set(a) <= {1}:
-                return {k: a.get(1, 0) * v for k, v in b.items()}
-            if set(b) <= {1}:
-                return {k: b.get(1, 0) * v for k, v in a.items()}
-    return None
-
-
-def r4(ctx, chk):
-    rule = "C04.R4"
-    f = ctx.ix.func(FP + ":FreshnessDateDataParser.get_kwargs")
-    # kwargs[unit + "s"] = float(num...) for the (num, unit) pairs of PATTERN.findall
-    ok_key = False
-    for n in iter_own_nodes(f.node):
-        if isinstance(n, ast.Assign) and isinstance(n.targets[0], ast.Subscript):
-            k = n.targets[0].slice
-            if isinstance(k, ast.BinOp) and isinstance(k.op, ast.Add) and isinstance(k.right, ast.Constant) and k.right.value == "s" \
-                    and isinstance(k.left, ast.Name) and ast.unparse(n.value).startswith("float("):
-                ok_key = True
-    chk.ob(rule, "get_kwargs stores float(count) under unit+'s'", ok_key,
-           "the count is not stored under the plural relativedelta key of its own unit",
-           key={"function": f.key, "construct": "kwargs[unit + 's'] = float(num)"}, file=f.file, function=f.qual,
-           line=f.node.lineno)
-    # decade folding: years := 10*decades + years ; del decades
-    # the dict that is returned (robust to its local name)
-    rets = [n.value.id for n in iter_own_nodes(f.node) if isinstance(n, ast.Return) and isinstance(n.value, ast.Name)]
-    if not rets:
-        raise AnalysisError(rule, "get_kwargs does not return a local dict")
-    kw = rets[-1]
-    syms = {"D": {"%s['decades']" % kw}, "Y": {"%s.get('years', 0)" % kw, "%s['years']" % kw}}
-    fold = None
-    for n in iter_own_nodes(f.node):
-        if isinstance(n, ast.Assign) and ast.unparse(n.targets[0]) == "%s['years']" % kw:
-            fold = _linear(n.value, syms)
-            line = n.lineno
-        elif isinstance(n, ast.AugAssign) and ast.unparse(n.target) == "%s['years']" % kw and isinstance(n.op, ast.Add):
-            fold = _linear(n.value, syms)
-            if fold is not None:
-                fold["Y"] = fold.get("Y", 0) + 1
-            line = n.lineno
-    ok = fold is not None and fold.get("D") == 10 and fold.get("Y") == 1 and not fold.get(1)
-    chk.ob(rule, "decades are folded as years = 10*decades + years", ok,
-           "folding is %s" % fold,
-           key={"function": f.key, "construct": "years = 10*decades + years"}, file=f.file, function=f.qual,
-           line=f.node.lineno)
-    dels = [ast.unparse(t) for n in iter_own_nodes(f.node) if isinstance(n, ast.Delete) for t in n.targets]
-    chk.ob(rule, "the decades key is deleted before relativedelta", "%s['decades']" % kw in dels, "",
-           key={"function": f.key, "construct": "del kwargs['decades']"}, file=f.file, function=f.qual,
-           line=f.node.lineno)
-    # ... on every path on which the key exists: the deletion is guarded by key MEMBERSHIP only (a test on the value
-    # skips the count 0 and hands decades=0.0 to relativedelta -> TypeError), or it is an unconditional pop with a default
-    from ..core.ctx import conjuncts as _cj, enclosing_tests as _et
-    for n in iter_own_nodes(f.node):
-        if isinstance(n, ast.Delete) and any(ast.unparse(t) == "%s['decades']" % kw for t in n.targets):
-            guards = [(" ".join(ast.unparse(a).split()), p_) for t_, pol in _et(f.node, n) for a, p_ in _cj(t_, pol)]
-            import re as _re2
-            about_kw = [(g, p_) for g, p_ in guards if _re2.search(r"\b%s\b" % _re2.escape(kw), g)]
-            ok = all((g == "'decades' in %s" % kw and p_) or (g == "'decades' not in %s" % kw and not p_) for g, p_ in about_kw)
-            chk.ob(rule, "the decades key is removed whenever it is present (guard: key membership only)", ok,
-                   "guards %s: for some counts the key survives and reaches relativedelta(**kwargs), which rejects it" % guards,
-                   key={"function": f.key, "construct": "decades removal guard"}, file=f.file, function=f.qual, line=n.lineno)
-    # every (num, unit) match contributes (several units add up): a loop over PATTERN.findall
-    loops = [n for n in iter_own_nodes(f.node) if isinstance(n, ast.For)]
-    ok = any("findall" in ast.unparse(n.iter) or isinstance(n.iter, ast.Name) for n in loops) and \
-        any("PATTERN.findall" in ast.unparse(n) for n in iter_own_nodes(f.node) if isinstance(n, ast.Call))
-    chk.ob(rule, "get_kwargs loops over all PATTERN.findall matches", ok, "",
-           key={"function": f.key, "construct": "for num, unit in PATTERN.findall(...)"}, file=f.file,
-           function=f.qual, line=f.node.lineno)
-
-
-def r5(ctx, chk):
-    rule = "C04.R5"
-    f = ctx.ix.func(FP + ":FreshnessDateDataParser._parse_date")
-    from ..core.ctx import conjuncts, enclosing_tests
-
-    found = 0
-    for n in iter_own_nodes(f.node):
-        if isinstance(n, ast.For) and isinstance(n.iter, (ast.List, ast.Tuple)):
-            try:
-                order = list(ast.literal_eval(n.iter))
-            except Exception:
-                continue
-            if not set(order) & {"weeks", "months", "years"}:
-                continue
-            found += 1
-            chk.ob(rule, "period candidates are tried finest first: %s" % order, order == ["weeks", "months", "years"],
-                   "order of the period candidates changed",
-                   key={"function": f.key, "construct": "period order"}, file=f.file, function=f.qual, line=n.lineno)
-            has_break = any(isinstance(x, ast.Break) for x in ast.walk(n))
-            chk.ob(rule, "the first counted candidate wins (break)", has_break,
-                   "without the break the coarsest counted unit wins",
-                   key={"function": f.key, "construct": "period break"}, file=f.file, function=f.qual, line=n.lineno)
-            sing = any(isinstance(x, ast.Assign) and isinstance(x.value, ast.Subscript) and isinstance(x.value.slice, ast.Slice)
-                       and ast.unparse(x.value.slice) == ":-1" for x in ast.walk(n))
-            chk.ob(rule, "period is the singular of the matched key (k[:-1])", sing, "",
-                   key={"function": f.key, "construct": "period singular"}, file=f.file, function=f.qual, line=n.lineno)
-            guarded = False
-            for test, pol in enclosing_tests(f.node, n):
-                for a, p in conjuncts(test, pol):
-                    if isinstance(a, ast.Compare) and isinstance(a.left, ast.Constant) and a.left.value == "days" and (
-                            (p and isinstance(a.ops[0], ast.NotIn)) or (not p and isinstance(a.ops[0], ast.In))):
-                        guarded = True
-            chk.ob(rule, "week/month/year periods only when the phrase counts no days", guarded, "",
-                   key={"function": f.key, "construct": "period days guard"}, file=f.file, function=f.qual, line=n.lineno)
-    chk.floor(rule, found, 1, "period selection loops")
-    pname = _period_name(f)
-    init = [n for n in iter_own_nodes(f.node) if isinstance(n, ast.Assign) and ast.unparse(n.targets[0]) == pname
-            and isinstance(n.value, ast.Constant)]
-    chk.ob(rule, "default period is 'day'", any(n.value.value == "day" for n in init), "",
-           key={"function": f.key, "construct": "default period"}, file=f.file, function=f.qual, line=f.node.lineno)
-
-
-def _period_name(f):
-    """the local returned as the second element of `return <date>, <period>`"""
-    for n in iter_own_nodes(f.node):
-        if isinstance(n, ast.Return) and isinstance(n.value, ast.Tuple) and len(n.value.elts) == 2 and isinstance(n.value.elts[1], ast.Name):
-            return n.value.elts[1].id
-    return "period"
-
-
-def r6(ctx, chk):
-    rule = "C04.R6"
-    f = ctx.ix.func(FP + ":FreshnessDateDataParser.parse")
-    at = f.children.get("apply_time")
-    if at is None:
-        raise AnalysisError(rule, "parse.<locals>.apply_time not found")
-    p = at.params()
-    reps = [n for n in iter_own_nodes(at.node) if isinstance(n, ast.Call) and isinstance(n.func, ast.Attribute)
-            and n.func.attr == "replace" and ast.unparse(n.func.value) == p[0]]
-    ok = False
-    for r in reps:
-        kw = {k.arg: ast.unparse(k.value) for k in r.keywords}
-        if kw == {x: "%s.%s" % (p[1], x) for x in ("hour", "minute", "second", "microsecond")}:
-            ok = True
-    chk.ob(rule, "apply_time replaces exactly hour/minute/second/microsecond with the parsed time's fields", ok,
-           "the clock time of the phrase does not replace the time of day field by field",
-           key={"function": at.key, "construct": "replace(hour=..,minute=..,second=..,microsecond=..)"},
-           file=at.file, function=at.qual, line=at.node.lineno)
-    # the time comes from the phrase with counted units and ago/in removed
-    pt = ctx.ix.func(FP + ":FreshnessDateDataParser._parse_time")
-    t = ast.unparse(pt.node)
-    ok = "PATTERN.sub('', " in t and "time_parser(" in t
-    chk.ob(rule, "_parse_time strips the counted units and parses the rest with time_parser", ok, "",
-           key={"function": pt.key, "construct": "PATTERN.sub + time_parser"}, file=pt.file, function=pt.qual,
-           line=pt.node.lineno)
-    # RETURN_TIME_AS_PERIOD: period 'time' only when the time changed the date
-    ok = False
-    for n in iter_own_nodes(f.node):
-        if isinstance(n, ast.If) and "RETURN_TIME_AS_PERIOD" in ast.unparse(n.test):
-            if any(isinstance(x, ast.Assign) and ast.unparse(x.targets[0]) == _period_name(f) and isinstance(x.value, ast.Constant)
-                   and x.value.value == "time" for x in n.body):
-                ok = True
-    chk.ob(rule, "period becomes 'time' only under RETURN_TIME_AS_PERIOD", ok, "",
-           key={"function": f.key, "construct": "period time"}, file=f.file, function=f.qual, line=f.node.lineno)
-
-
-EN_CANON = {
-    # word: (direction, count, unit) as the property states them
-    "now": (0, 0, "second"), "today": (0, 0, "day"),
-    "yesterday": (-1, 1, "day"), "tomorrow": (+1, 1, "day"),
-    "last week": (-1, 1, "week"), "next week": (+1, 1, "week"),
-    "last month": (-1, 1, "month"), "next month": (+1, 1, "month"),
-    "last year": (-1, 1, "year"), "next year": (+1, 1, "year"),
-}
-
-
-def parse_canon(key, units):
-    """'in 1 day' / '2 week ago' -> (direction, count, unit) or None"""
-    toks = key.split()
-    d = 0
-    if toks and toks[0] == "in":
-        d = 1
-        toks = toks[1:]
-    if toks and toks[-1] == "ago":
-        if d:
-            return None
-        d = -1
-        toks = toks[:-1]
-    if len(toks) != 2 or toks[1] not in units:
-        return None
-    try:
-        n = float(toks[0])
-    except ValueError:
-        return None
-    return (0 if n == 0 else d, n, toks[1])
-
-
-def r7(ctx, chk):
-    rule = "C04.R7"
-    ld = ctx.memo("langdata", lambda: LangData(ctx.repo))
-    info = ld.locale_info("en")
-    units = _units(ctx)
-    where = {}
-    for k, words in info.get("relative-type", {}).items():
-        for w in words:
-            where.setdefault(w.lower(), []).append(k)
-    for w, (d, n, u) in EN_CANON.items():
-        keys = where.get(w, [])
-        got = [parse_canon(k, units) for k in keys]
-        ok = len(keys) == 1 and got[0] == (d, float(n), u)
-        chk.ob(rule, "en: %r is listed under a key meaning %+d x %d %s (found %s)" % (w, d, n, u, keys), ok,
-               "English fixed word maps to %s" % keys,
-               key={"locale": "en", "word": w}, file="dateparser/data/date_translation_data/en.py",
-               function="info['relative-type']", line=None)
-    # counted English patterns: 'N <unit> ago' / 'in N <unit>' exist for every unit, under their own key
-    rx = info.get("relative-type-regex", {})
-    import regex as re
-    for u in units:
-        for canon, probe in (("\\1 %s ago" % u, "3 %ss ago" % u), ("in \\1 %s" % u, "in 3 %ss" % u)):
-            pats = rx.get(canon, [])
-            ok = any(re.fullmatch(p, probe, re.I) for p in pats)
-            chk.ob(rule, "en: %r is matched by a pattern listed under %r" % (probe, canon), ok,
-                   "no English counted pattern for this unit/direction",
-                   key={"locale": "en", "word": canon}, file="dateparser/data/date_translation_data/en.py",
-                   function="info['relative-type-regex']", line=None)
-
-
-
-def unit_spelling_rule(ctx, chk, rule):
-    """`get_kwargs` turns the TEXT matched by the unit group of PATTERN into a relativedelta keyword (`unit + 's'`).  PATTERN is compiled
-    case-insensitively, so on its own it also accepts 'SECOND' or 'ſecond' (U+017F folds to s) - and relativedelta(**{'ſeconds': 1}) is a
-    TypeError.  What makes the keyword a real unit name is the word filter `_are_all_words_units`, which `_parse_date` consults first and
-    which matches each word case-SENSITIVELY against the same unit list.  Keep at least one of the two exact."""
-    from ..core.cfg import CFG
-    from ..core.rx import module_regex
-    ix = ctx.ix
-    m = ix.module(FP)
-    try:
-        pat, fl = module_regex(ix, m.name, "PATTERN")
-    except AnalysisError:
-        raise AnalysisError(rule, "freshness_date_parser.PATTERN is not a compile of a foldable pattern")
-    pattern_folds = "I" in (fl or "").replace("IGNORECASE", "I").replace("re.", "").replace("S", "").replace("U", "") or "IGNORECASE" in (fl or "")
     f = ix.func(FP + ":FreshnessDateDataParser._are_all_words_units")
     calls = [n for n in iter_own_nodes(f.node) if isinstance(n, ast.Call) and ast.unparse(n.func) in ("re.match", "re.fullmatch", "regex.match", "regex.fullmatch")]
     if len(calls) != 1:
@@ -905,804 +496,6 @@ def unit_spelling_rule(ctx, chk, rule):
     flags = c.args[2] if len(c.args) > 2 else {k.arg: k.value for k in c.keywords}.get("flags")
     ftxt = ast.unparse(flags) if flags is not None else ""
     filter_folds = folds(ftxt) or "(?i" in (fold_str(c.args[0], f, ix) or "")
-    gk = ix.func(FP + ":FreshnessDateDataParser.get_kwargs")
-    deleted = set()
-    for n in iter_own_nodes(gk.node):
-        if isinstance(n, ast.Delete):
-            for t in n.targets:
-                if isinstance(t, ast.Subscript) and isinstance(t.slice, ast.Constant):
-                    deleted.add(t.slice.value)
-    for u in units:
-        k = u + "s"
-        ok = k in rd_kw or k in deleted
-        chk.ob(rule, "relativedelta accepts %s (or it is folded away first)" % k, ok,
-               "relativedelta(**kwargs) raises TypeError for this unit",
-               key={"table": "relativedelta", "unit": u}, file=gk.file, function=gk.qual, line=gk.node.lineno)
-    # the future-word table that decides whether a translated 'in' is kept
-    cf = ix.func("dateparser.languages.locale:Locale._clear_future_words")
-    fw = None
-    for n in iter_own_nodes(cf.node):
-        if isinstance(n, ast.Assign) and isinstance(n.value, (ast.Set, ast.List, ast.Tuple)):
-            try:
-                fw = set(ast.literal_eval(n.value))
-            except Exception:
-                pass
-    if fw is None:
-        raise AnalysisError(rule, "Locale._clear_future_words: word set literal not found")
-    for u in units:
-        chk.ob(rule, "unit %s ∈ Locale._clear_future_words' table" % u, u in fw,
-               "a translated 'in' next to this unit is dropped, flipping 'in N %ss' to the past "
-               "whenever the phrase is not matched by a whole-phrase pattern" % u,
-               key={"table": "freshness_words", "unit": u}, file=cf.file, function=cf.qual, line=cf.node.lineno)
-
-
-def r2(ctx, chk):
-    rule = "C04.R2"
-    ix = ctx.ix
-    ef, ex = build_effects(ctx, chk, rule)
-    tf = ix.func("dateparser.date:_DateLocaleParser._try_freshness_parser")
-    tries = [s for s in iter_own_stmts(tf.node.body) if isinstance(s, ast.Try)]
-    call_in_try = None
-    for t in tries:
-        for n in ast.walk(ast.Module(body=t.body, type_ignores=[])):
-            if isinstance(n, ast.Call) and ast.unparse(n.func).endswith("get_date_data"):
-                call_in_try = t
-    chk.ob(rule, "_try_freshness_parser calls the freshness parser inside a try", call_in_try is not None,
-           "the freshness parser runs without the handler that turns overflow into None",
-           key={"function": tf.key, "construct": "call inside try"}, file=tf.file, function=tf.qual,
-           line=tf.node.lineno)
-    if call_in_try is None:
-        return
-    names = []
-    for h in call_in_try.handlers:
-        names += ef.handler_names(h, tf)
-    target = ix.func(FP + ":FreshnessDateDataParser.get_date_data")
-    classes = sorted({e for e, _ in ef.escapes(target.key)})
-    chk.floor(rule + ".mayraise", len(classes), 2, "exception classes in the freshness parser's may-raise set")
-    for c in classes:
-        ok = any(nm is None or ef.h.issub(c, nm) for nm in names)
-        w = [o for (e, o) in ef.escapes(target.key) if e == c][:1]
-        chk.ob(rule, "handler of _try_freshness_parser covers %s" % c, ok,
-               "%s (e.g. from %s) is not turned into None" % (c, w),
-               key={"function": tf.key, "construct": "handler covers " + c}, file=tf.file, function=tf.qual,
-               line=call_in_try.lineno)
-    for h in call_in_try.handlers:
-        body_ok = all(isinstance(s, (ast.Pass,)) or (isinstance(s, ast.Return) and (
-            s.value is None or (isinstance(s.value, ast.Constant) and s.value.value is None))) for s in h.body)
-        chk.ob(rule, "handler `except %s` yields None" % (ast.unparse(h.type) if h.type else ""), body_ok,
-               "the handler does something other than returning None",
-               key={"function": tf.key, "construct": "handler returns None"}, file=tf.file, function=tf.qual,
-               line=h.lineno)
-
-
-def r3(ctx, chk):
-    rule = "C04.R3"
-    f = ctx.ix.func(FP + ":FreshnessDateDataParser._parse_date")
-    params = f.params()
-
-    def atom(e):
-        # re.search(r"\bWORD\b", subject)
-        if isinstance(e, ast.Call) and ast.unparse(e.func) in ("re.search", "regex.search") and len(e.args) == 2:
-            p = fold_str(e.args[0], f, ctx.ix)
-            subj = ast.unparse(e.args[1])
-            if p and p.startswith("\\b") and p.endswith("\\b"):
-                w = p[2:-2]
-                if w in ("in", "ago") and subj == params[1]:
-                    return w
-                if w in ("future", "past") and subj == params[3]:
-                    return w
-        return None
-
-    found = 0
-    for s in iter_own_stmts(f.node.body):
-        if not isinstance(s, ast.If):
-            continue
-        def sign(block):
-            for b in block:
-                if isinstance(b, ast.Assign) and isinstance(b.value, ast.BinOp) and isinstance(b.value.op, (ast.Add, ast.Sub)) \
-                        and ast.unparse(b.value.left) == params[2]:
-                    return "+" if isinstance(b.value.op, ast.Add) else "-"
-            return None
-        sa, sb = sign(s.body), sign(s.orelse)
-        if sa is None and sb is None:
-            continue
-        found += 1
-        form = G.to_formula(s.test, atom)
-        free = G.atoms_of(form, ("free",))
-        spec = ("or", ("atom", "in"), ("and", ("atom", "future"), ("not", ("atom", "ago"))))
-        if sa == "-" and sb == "+":
-            form = G.neg(form)
-            sa, sb = sb, sa
-        ok = sa == "+" and sb == "-" and not free
-        diff = None
-        if ok:
-            diff = G.equivalent(form, spec, {"in", "ago", "future"})
-            ok = diff is None
-        chk.ob(rule, "_parse_date adds the delta iff in ∨ (future ∧ ¬ago), else subtracts; test = %s" % G.show(form), ok,
-               "direction decision differs from the specification%s" % (
-                   " under " + str({k: v for k, v in diff.items()}) if diff else
-                   " (branches %s/%s, unrecognised atoms %s)" % (sa, sb, sorted(free))),
-               key={"function": f.key, "construct": "direction truth table"}, file=f.file, function=f.qual,
-               line=s.lineno, text=ast.unparse(s.test))
-    chk.floor(rule, found, 1, "direction branches in _parse_date")
-    # the delta is relativedelta(**kwargs) of get_kwargs(date_string)
-    txt = {ast.unparse(n) for n in iter_own_nodes(f.node) if isinstance(n, ast.Call)}
-    ok = any(t.startswith("relativedelta(**") for t in txt) and any("get_kwargs(%s)" % params[1] in t for t in txt)
-    chk.ob(rule, "delta = relativedelta(**get_kwargs(date_string))", ok, "",
-           key={"function": f.key, "construct": "relativedelta(**kwargs)"}, file=f.file, function=f.qual,
-           line=f.node.lineno)
-
-
-def _linear(e, syms):
-    """coefficients {symbol: c, 1: const} of a +,-,* expression, or None"""
-    txt = " ".join(ast.unparse(e).split())
-    for name, forms in syms.items():
-        if txt in forms:
-            return {name: 1}
-    if isinstance(e, ast.Constant) and isinstance(e.value, (int, float)):
-        return {1: e.value}
-    if isinstance(e, ast.BinOp):
-        a, b = _linear(e.left, syms), _linear(e.right, syms)
-        if a is None or b is None:
-            return None
-        if isinstance(e.op, (ast.Add, ast.Sub)):
-            s = 1 if isinstance(e.op, ast.Add) else -1
-            out = dict(a)
-            for k, v in b.items():
-                out[k] = out.get(k, 0) + s * v
-            return out
-        if isinstance(e.op, ast.Mult):
-            if set(a) <= {1}:
-                return {k: a.get(1, 0) * v for k, v in b.items()}
-            if set(b) <= {1}:
-                return {k: b.get(1, 0) * v for k, v in a.items()}
-    return None
-
-
-def r4(ctx, chk):
-    rule = "C04.R4"
-    f = ctx.ix.func(FP + ":FreshnessDateDataParser.get_kwargs")
-    # kwargs[unit + "s"] = float(num...) for the (num, unit) pairs of PATTERN.findall
-    ok_key = False
-    for n in iter_own_nodes(f.node):
-        if isinstance(n, ast.Assign) and isinstance(n.targets[0], ast.Subscript):
-            k = n.targets[0].slice
-            if isinstance(k, ast.BinOp) and isinstance(k.op, ast.Add) and isinstance(k.right, ast.Constant) and k.right.value == "s" \
-                    and isinstance(k.left, ast.Name) and ast.unparse(n.value).startswith("float("):
-                ok_key = True
-    chk.ob(rule, "get_kwargs stores float(count) under unit+'s'", ok_key,
-           "the count is not stored under the plural relativedelta key of its own unit",
-           key={"function": f.key, "construct": "kwargs[unit + 's'] = float(num)"}, file=f.file, function=f.qual,
-           line=f.node.lineno)
-    # decade folding: years := 10*decades + years ; del decades
-    # the dict that is returned (robust to its local name)
-    rets = [n.value.id for n in iter_own_nodes(f.node) if isinstance(n, ast.Return) and isinstance(n.value, ast.Name)]
-    if not rets:
-        raise AnalysisError(rule, "get_kwargs does not return a local dict")
-    kw = rets[-1]
-    syms = {"D": {"%s['decades']" % kw}, "Y": {"%s.get('years', 0)" % kw, "%s['years']" % kw}}
-    fold = None
-    for n in iter_own_nodes(f.node):
-        if isinstance(n, ast.Assign) and ast.unparse(n.targets[0]) == "%s['years']" % kw:
-            fold = _linear(n.value, syms)
-            line = n.lineno
-        elif isinstance(n, ast.AugAssign) and ast.unparse(n.target) == "%s['years']" % kw and isinstance(n.op, ast.Add):
-            fold = _linear(n.value, syms)
-            if fold is not None:
-                fold["Y"] = fold.get("Y", 0) + 1
-            line = n.lineno
-    ok = fold is not None and fold.get("D") == 10 and fold.get("Y") == 1 and not fold.get(1)
-    chk.ob(rule, "decades are folded as years = 10*decades + years", ok,
-           "folding is %s" % fold,
-           key={"function": f.key, "construct": "years = 10*decades + years"}, file=f.file, function=f.qual,
-           line=f.node.lineno)
-    dels = [ast.unparse(t) for n in iter_own_nodes(f.node) if isinstance(n, ast.Delete) for t in n.targets]
-    chk.ob(rule, "the decades key is deleted before relativedelta", "%s['decades']" % kw in dels, "",
-           key={"function": f.key, "construct": "del kwargs['decades']"}, file=f.file, function=f.qual,
-           line=f.node.lineno)
-    # ... on every path on which the key exists: the deletion is guarded by key MEMBERSHIP only (a test on the value
-    # skips the count 0 and hands decades=0.0 to relativedelta -> TypeError), or it is an unconditional pop with a default
-    from ..core.ctx import conjuncts as _cj, enclosing_tests as _et
-    for n in iter_own_nodes(f.node):
-        if isinstance(n, ast.Delete) and any(ast.unparse(t) == "%s['decades']" % kw for t in n.targets):
-            guards = [(" ".join(ast.unparse(a).split()), p_) for t_, pol in _et(f.node, n) for a, p_ in _cj(t_, pol)]
-            import re as _re2
-            about_kw = [(g, p_) for g, p_ in guards if _re2.search(r"\b%s\b" % _re2.escape(kw), g)]
-            ok = all((g == "'decades' in %s" % kw and p_) or (g == "'decades' not in %s" % kw and not p_) for g, p_ in about_kw)
-            chk.ob(rule, "the decades key is removed whenever it is present (guard: key membership only)", ok,
-                   "guards %s: for some counts the key survives and reaches relativedelta(**kwargs), which rejects it" % guards,
-                   key={"function": f.key, "construct": "decades removal guard"}, file=f.file, function=f.qual, line=n.lineno)
-    # every (num, unit) match contributes (several units add up): a loop over PATTERN.findall
-    loops = [n for n in iter_own_nodes(f.node) if isinstance(n, ast.For)]
-    ok = any("findall" in ast.unparse(n.iter) or isinstance(n.iter, ast.Name) for n in loops) and \
-        any("PATTERN.findall" in ast.unparse(n) for n in iter_own_nodes(f.node) if isinstance(n, ast.Call))
-    chk.ob(rule, "get_kwargs loops over all PATTERN.findall matches", ok, "",
-           key={"function": f.key, "construct": "for num, unit in PATTERN.findall(...)"}, file=f.file,
-           function=f.qual, line=f.node.lineno)
-
-
-def r5(ctx, chk):
-    rule = "C04.R5"
-    f = ctx.ix.func(FP + ":FreshnessDateDataParser._parse_date")
-    from ..core.ctx import conjuncts, enclosing_tests
-
-    found = 0
-    for n in iter_own_nodes(f.node):
-        if isinstance(n, ast.For) and isinstance(n.iter, (ast.List, ast.Tuple)):
-            try:
-                order = list(ast.literal_eval(n.iter))
-            except Exception:
-                continue
-            if not set(order) & {"weeks", "months", "years"}:
-                continue
-            found += 1
-            chk.ob(rule, "period candidates are tried finest first: %s" % order, order == ["weeks", "months", "years"],
-                   "order of the period candidates changed",
-                   key={"function": f.key, "construct": "period order"}, file=f.file, function=f.qual, line=n.lineno)
-            has_break = any(isinstance(x, ast.Break) for x in ast.walk(n))
-            chk.ob(rule, "the first counted candidate wins (break)", has_break,
-                   "without the break the coarsest counted unit wins",
-                   key={"function": f.key, "construct": "period break"}, file=f.file, function=f.qual, line=n.lineno)
-            sing = any(isinstance(x, ast.Assign) and isinstance(x.value, ast.Subscript) and isinstance(x.value.slice, ast.Slice)
-                       and ast.unparse(x.value.slice) == ":-1" for x in ast.walk(n))
-            chk.ob(rule, "period is the singular of the matched key (k[:-1])", sing, "",
-                   key={"function": f.key, "construct": "period singular"}, file=f.file, function=f.qual, line=n.lineno)
-            guarded = False
-            for test, pol in enclosing_tests(f.node, n):
-                for a, p in conjuncts(test, pol):
-                    if isinstance(a, ast.Compare) and isinstance(a.left, ast.Constant) and a.left.value == "days" and (
-                            (p and isinstance(a.ops[0], ast.NotIn)) or (not p and isinstance(a.ops[0], ast.In))):
-                        guarded = True
-            chk.ob(rule, "week/month/year periods only when the phrase counts no days", guarded, "",
-                   key={"function": f.key, "construct": "period days guard"}, file=f.file, function=f.qual, line=n.lineno)
-    chk.floor(rule, found, 1, "period selection loops")
-    pname = _period_name(f)
-    init = [n for n in iter_own_nodes(f.node) if isinstance(n, ast.Assign) and ast.unparse(n.targets[0]) == pname
-            and isinstance(n.value, ast.Constant)]
-    chk.ob(rule, "default period is 'day'", any(n.value.value == "day" for n in init), "",
-           key={"function": f.key, "construct": "default period"}, file=f.file, function=f.qual, line=f.node.lineno)
-
-
-def _period_name(f):
-    """the local returned as the second element of `return <date>, <period>`"""
-    for n in iter_own_nodes(f.node):
-        if isinstance(n, ast.Return) and isinstance(n.value, ast.Tuple) and len(n.value.elts) == 2 and isinstance(n.value.elts[1], ast.Name):
-            return n.value.elts[1].id
-    return "period"
-
-
-def r6(ctx, chk):
-    rule = "C04.R6"
-    f = ctx.ix.func(FP + ":FreshnessDateDataParser.parse")
-    at = f.children.get("apply_time")
-    if at is None:
-        raise AnalysisError(rule, "parse.<locals>.apply_time not found")
-    p = at.params()
-    reps = [n for n in iter_own_nodes(at.node) if isinstance(n, ast.Call) and isinstance(n.func, ast.Attribute)
-            and n.func.attr == "replace" and ast.unparse(n.func.value) == p[0]]
-    ok = False
-    for r in reps:
-        kw = {k.arg: ast.unparse(k.value) for k in r.keywords}
-        if kw == {x: "%s.%s" % (p[1], x) for x in ("hour", "minute", "second", "microsecond")}:
-            ok = True
-    chk.ob(rule, "apply_time replaces exactly hour/minute/second/microsecond with the parsed time's fields", ok,
-           "the clock time of the phrase does not replace the time of day field by field",
-           key={"function": at.key, "construct": "replace(hour=..,minute=..,second=..,microsecond=..)"},
-           file=at.file, function=at.qual, line=at.node.lineno)
-    # the time comes from the phrase with counted units and ago/in removed
-    pt = ctx.ix.func(FP + ":FreshnessDateDataParser._parse_time")
-    t = ast.unparse(pt.node)
-    ok = "PATTERN.sub('', " in t and "time_parser(" in t
-    chk.ob(rule, "_parse_time strips the counted units and parses the rest with time_parser", ok, "",
-           key={"function": pt.key, "construct": "PATTERN.sub + time_parser"}, file=pt.file, function=pt.qual,
-           line=pt.node.lineno)
-    # RETURN_TIME_AS_PERIOD: period 'time' only when the time changed the date
-    ok = False
-    for n in iter_own_nodes(f.node):
-        if isinstance(n, ast.If) and "RETURN_TIME_AS_PERIOD" in ast.unparse(n.test):
-            if any(isinstance(x, ast.Assign) and ast.unparse(x.targets[0]) == _period_name(f) and isinstance(x.value, ast.Constant)
-                   and x.value.value == "time" for x in n.body):
-                ok = True
-    chk.ob(rule, "period becomes 'time' only under RETURN_TIME_AS_PERIOD", ok, "",
-           key={"function": f.key, "construct": "period time"}, file=f.file, function=f.qual, line=f.node.lineno)
-
-
-EN_CANON = {
-    # word: (direction, count, unit) as the property states them
-    "now": (0, 0, "second"), "today": (0, 0, "day"),
-    "yesterday": (-1, 1, "day"), "tomorrow": (+1, 1, "day"),
-    "last week": (-1, 1, "week"), "next week": (+1, 1, "week"),
-    "last month": (-1, 1, "month"), "next month": (+1, 1, "month"),
-    "last year": (-1, 1, "year"), "next year": (+1, 1, "year"),
-}
-
-
-def parse_canon(key, units):
-    """'in 1 day' / '2 week ago' -> (direction, count, unit) or None"""
-    toks = key.split()
-    d = 0
-    if toks and toks[0] == "in":
-        d = 1
-        toks = toks[1:]
-    if toks and toks[-1] == "ago":
-        if d:
-            return None
-        d = -1
-        toks = toks[:-1]
-    if len(toks) != 2 or toks[1] not in units:
-        return None
-    try:
-        n = float(toks[0])
-    except ValueError:
-        return None
-    return (0 if n == 0 else d, n, toks[1])
-
-
-def r7(ctx, chk):
-    rule = "C04.R7"
-    ld = ctx.memo("langdata", lambda: LangData(ctx.repo))
-    info = ld.locale_info("en")
-    units = _units(ctx)
-    where = {}
-    for k, words in info.get("relative-type", {}).items():
-        for w in words:
-            where.setdefault(w.lower(), []).append(k)
-    for w, (d, n, u) in EN_CANON.items():
-        keys = where.get(w, [])
-        got = [parse_canon(k, units) for k in keys]
-        ok = len(keys) == 1 and got[0] == (d, float(n), u)
-        chk.ob(rule, "en: %r is listed under a key meaning %+d x %d %s (found %s)" % (w, d, n, u, keys), ok,
-               "English fixed word maps to %s" % keys,
-               key={"locale": "en", "word": w}, file="dateparser/data/date_translation_data/en.py",
-               function="info['relative-type']", line=None)
-    # counted English patterns: 'N <unit> ago' / 'in N <unit>' exist for every unit, under their own key
-    rx = info.get("relative-type-regex", {})
-    import regex as re
-    for u in units:
-        for canon, probe in (("\\1 %s ago" % u, "3 %ss ago" % u), ("in \\1 %s" % u, "in 3 %ss" % u)):
-            pats = rx.get(canon, [])
-            ok = any(re.fullmatch(p, probe, re.I) for p in pats)
-            chk.ob(rule, "en: %r is matched by a pattern listed under %r" % (probe, canon), ok,
-                   "no English counted pattern for this unit/direction",
-                   key={"locale": "en", "word": canon}, file="dateparser/data/date_translation_data/en.py",
-                   function="info['relative-type-regex']", line=None)
-
-
-
-def unit_spelling_rule(ctx, chk, rule):
-    """`get_kwargs` turns the TEXT matched by the unit group of PATTERN into a relativedelta keyword (`unit + 's'`).  PATTERN is compiled
-    case-insensitively, so on its own it also accepts 'SECOND' or 'ſecond' (U+017F folds to s) - and relativedelta(**{'ſeconds': 1}) is a
-    TypeError.  What makes the keyword a real unit name is the word filter `_are_all_words_units`, which `_parse_date` consults first and
-    which matches each word case-SENSITIVELY against the same unit list.  Keep at least one of the two exact."""
-    from ..core.cfg import CFG
-    from ..core.rx import module_regex
-    ix = ctx.ix
-    m = ix.module(FP)
-    try:
-        pat, fl = module_regex(ix, m.name, "PATTERN")
-    except AnalysisError:
-        raise AnalysisError(rule, "freshness_date_parser.PATTERN is not a compile of a foldable pattern")
-    def folds(txt):
-        parts = {x.strip().split(".")[-1] for x in (txt or "").split("|")}
-        return bool(parts & {"I", "IGNORECASE"})
-    pattern_folds = folds(fl) or "(?i" in pat
-    f = ix.func(FP + ":FreshnessDateDataParser._are_all_words_units")
-    skip = None
-    for n in iter_own_nodes(f.node):
-        if isinstance(n, ast.Assign) and isinstance(n.value, ast.List) and len(n.value.elts) >= 2:
-            v = fold_list(n.value, f, ix)
-            if v is not None and any("ago" in x for x in v):
-                skip = v
-    if skip is None:
-        raise AnalysisError(rule, "_are_all_words_units.skip is not a list of constant patterns")
-    import regex as re
-    pat = re.compile("|".join(skip))
-    for u in units + ["ago", "in", "15"]:
-        chk.ob(rule, "word filter accepts %r" % u, bool(pat.match(u)),
-               "a canonical word is rejected by _are_all_words_units, so phrases using it parse to None",
-               key={"table": "skip", "unit": u}, file=f.file, function=f.qual, line=f.node.lineno)
-    # PATTERN is built from _UNITS, case-insensitively, with a word boundary after the unit
-    from ..core.rx import module_regex
-    ptxt, flags = module_regex(ix, FP, "PATTERN")
-    ok = ("(" + "|".join(units) + ")\\b") in ptxt and ("re.I" in flags or "IGNORECASE" in flags)
-    chk.ob(rule, "PATTERN = <number>\\s*(<_UNITS>)\\b, IGNORECASE", ok,
-           "the count/unit regex no longer spells exactly the unit table followed by a word boundary",
-           key={"table": "PATTERN", "unit": "*"}, file="dateparser/freshness_date_parser.py", function="<module>",
-           line=None, text=ptxt)
-    # relativedelta accepts unit+'s' for every unit except those deleted before the call
-    try:
-        from dateutil.relativedelta import relativedelta
-        rd_kw = set(inspect.signature(relativedelta.__init__).parameters) - {"self"}
-    except Exception:  # pragma: no cover
-        rd_kw = {"years", "months", "days", "leapdays", "weeks", "hours", "minutes", "seconds", "microseconds"}
-        chk.assume("dateutil not importable: relativedelta keyword set taken from its documentation")
-    gk = ix.func(FP + ":FreshnessDateDataParser.get_kwargs")
-    deleted = set()
-    for n in iter_own_nodes(gk.node):
-        if isinstance(n, ast.Delete):
-            for t in n.targets:
-                if isinstance(t, ast.Subscript) and isinstance(t.slice, ast.Constant):
-                    deleted.add(t.slice.value)
-    for u in units:
-        k = u + "s"
-        ok = k in rd_kw or k in deleted
-        chk.ob(rule, "relativedelta accepts %s (or it is folded away first)" % k, ok,
-               "relativedelta(**kwargs) raises TypeError for this unit",
-               key={"table": "relativedelta", "unit": u}, file=gk.file, function=gk.qual, line=gk.node.lineno)
-    # the future-word table that decides whether a translated 'in' is kept
-    cf = ix.func("dateparser.languages.locale:Locale._clear_future_words")
-    fw = None
-    for n in iter_own_nodes(cf.node):
-        if isinstance(n, ast.Assign) and isinstance(n.value, (ast.Set, ast.List, ast.Tuple)):
-            try:
-                fw = set(ast.literal_eval(n.value))
-            except Exception:
-                pass
-    if fw is None:
-        raise AnalysisError(rule, "Locale._clear_future_words: word set literal not found")
-    for u in units:
-        chk.ob(rule, "unit %s ∈ Locale._clear_future_words' table" % u, u in fw,
-               "a translated 'in' next to this unit is dropped, flipping 'in N %ss' to the past "
-               "whenever the phrase is not matched by a whole-phrase pattern" % u,
-               key={"table": "freshness_words", "unit": u}, file=cf.file, function=cf.qual, line=cf.node.lineno)
-
-
-def r2(ctx, chk):
-    rule = "C04.R2"
-    ix = ctx.ix
-    ef, ex = build_effects(ctx, chk, rule)
-    tf = ix.func("dateparser.date:_DateLocaleParser._try_freshness_parser")
-    tries = [s for s in iter_own_stmts(tf.node.body) if isinstance(s, ast.Try)]
-    call_in_try = None
-    for t in tries:
-        for n in ast.walk(ast.Module(body=t.body, type_ignores=[])):
-            if isinstance(n, ast.Call) and ast.unparse(n.func).endswith("get_date_data"):
-                call_in_try = t
-    chk.ob(rule, "_try_freshness_parser calls the freshness parser inside a try", call_in_try is not None,
-           "the freshness parser runs without the handler that turns overflow into None",
-           key={"function": tf.key, "construct": "call inside try"}, file=tf.file, function=tf.qual,
-           line=tf.node.lineno)
-    if call_in_try is None:
-        return
-    names = []
-    for h in call_in_try.handlers:
-        names += ef.handler_names(h, tf)
-    target = ix.func(FP + ":FreshnessDateDataParser.get_date_data")
-    classes = sorted({e for e, _ in ef.escapes(target.key)})
-    chk.floor(rule + ".mayraise", len(classes), 2, "exception classes in the freshness parser's may-raise set")
-    for c in classes:
-        ok = any(nm is None or ef.h.issub(c, nm) for nm in names)
-        w = [o for (e, o) in ef.escapes(target.key) if e == c][:1]
-        chk.ob(rule, "handler of _try_freshness_parser covers %s" % c, ok,
-               "%s (e.g. from %s) is not turned into None" % (c, w),
-               key={"function": tf.key, "construct": "handler covers " + c}, file=tf.file, function=tf.qual,
-               line=call_in_try.lineno)
-    for h in call_in_try.handlers:
-        body_ok = all(isinstance(s, (ast.Pass,)) or (isinstance(s, ast.Return) and (
-            s.value is None or (isinstance(s.value, ast.Constant) and s.value.value is None))) for s in h.body)
-        chk.ob(rule, "handler `except %s` yields None" % (ast.unparse(h.type) if h.type else ""), body_ok,
-               "the handler does something other than returning None",
-               key={"function": tf.key, "construct": "handler returns None"}, file=tf.file, function=tf.qual,
-               line=h.lineno)
-
-
-def r3(ctx, chk):
-    rule = "C04.R3"
-    f = ctx.ix.func(FP + ":FreshnessDateDataParser._parse_date")
-    params = f.params()
-
-    def atom(e):
-        # re.search(r"\bWORD\b", subject)
-        if isinstance(e, ast.Call) and ast.unparse(e.func) in ("re.search", "regex.search") and len(e.args) == 2:
-            p = fold_str(e.args[0], f, ctx.ix)
-            subj = ast.unparse(e.args[1])
-            if p and p.startswith("\\b") and p.endswith("\\b"):
-                w = p[2:-2]
-                if w in ("in", "ago") and subj == params[1]:
-                    return w
-                if w in ("future", "past") and subj == params[3]:
-                    return w
-        return None
-
-    found = 0
-    for s in iter_own_stmts(f.node.body):
-        if not isinstance(s, ast.If):
-            continue
-        def sign(block):
-            for b in block:
-                if isinstance(b, ast.Assign) and isinstance(b.value, ast.BinOp) and isinstance(b.value.op, (ast.Add, ast.Sub)) \
-                        and ast.unparse(b.value.left) == params[2]:
-                    return "+" if isinstance(b.value.op, ast.Add) else "-"
-            return None
-        sa, sb = sign(s.body), sign(s.orelse)
-        if sa is None and sb is None:
-            continue
-        found += 1
-        form = G.to_formula(s.test, atom)
-        free = G.atoms_of(form, ("free",))
-        spec = ("or", ("atom", "in"), ("and", ("atom", "future"), ("not", ("atom", "ago"))))
-        if sa == "-" and sb == "+":
-            form = G.neg(form)
-            sa, sb = sb, sa
-        ok = sa == "+" and sb == "-" and not free
-        diff = None
-        if ok:
-            diff = G.equivalent(form, spec, {"in", "ago", "future"})
-            ok = diff is None
-        chk.ob(rule, "_parse_date adds the delta iff in ∨ (future ∧ ¬ago), else subtracts; test = %s" % G.show(form), ok,
-               "direction decision differs from the specification%s" % (
-                   " under " + str({k: v for k, v in diff.items()}) if diff else
-                   " (branches %s/%s, unrecognised atoms %s)" % (sa, sb, sorted(free))),
-               key={"function": f.key, "construct": "direction truth table"}, file=f.file, function=f.qual,
-               line=s.lineno, text=ast.unparse(s.test))
-    chk.floor(rule, found, 1, "direction branches in _parse_date")
-    # the delta is relativedelta(**kwargs) of get_kwargs(date_string)
-    txt = {ast.unparse(n) for n in iter_own_nodes(f.node) if isinstance(n, ast.Call)}
-    ok = any(t.startswith("relativedelta(**") for t in txt) and any("get_kwargs(%s)" % params[1] in t for t in txt)
-    chk.ob(rule, "delta = relativedelta(**get_kwargs(date_string))", ok, "",
-           key={"function": f.key, "construct": "relativedelta(**kwargs)"}, file=f.file, function=f.qual,
-           line=f.node.lineno)
-
-
-def _linear(e, syms):
-    """coefficients {symbol: c, 1: const} of a +,-,* expression, or None"""
-    txt = " ".join(ast.unparse(e).split())
-    for name, forms in syms.items():
-        if txt in forms:
-            return {name: 1}
-    if isinstance(e, ast.Constant) and isinstance(e.value, (int, float)):
-        return {1: e.value}
-    if isinstance(e, ast.BinOp):
-        a, b = _linear(e.left, syms), _linear(e.right, syms)
-        if a is None or b is None:
-            return None
-        if isinstance(e.op, (ast.Add, ast.Sub)):
-            s = 1 if isinstance(e.op, ast.Add) else -1
-            out = dict(a)
-            for k, v in b.items():
-                out[k] = out.get(k, 0) + s * v
-            return out
-        if isinstance(e.op, ast.Mult):
-            if set(a) <= {1}:
-                return {k: a.get(1, 0) * v for k, v in b.items()}
-            if set(b) <= {1}:
-                return {k: b.get(1, 0) * v for k, v in a.items()}
-    return None
-
-
-def r4(ctx, chk):
-    rule = "C04.R4"
-    f = ctx.ix.func(FP + ":FreshnessDateDataParser.get_kwargs")
-    # kwargs[unit + "s"] = float(num...) for the (num, unit) pairs of PATTERN.findall
-    ok_key = False
-    for n in iter_own_nodes(f.node):
-        if isinstance(n, ast.Assign) and isinstance(n.targets[0], ast.Subscript):
-            k = n.targets[0].slice
-            if isinstance(k, ast.BinOp) and isinstance(k.op, ast.Add) and isinstance(k.right, ast.Constant) and k.right.value == "s" \
-                    and isinstance(k.left, ast.Name) and ast.unparse(n.value).startswith("float("):
-                ok_key = True
-    chk.ob(rule, "get_kwargs stores float(count) under unit+'s'", ok_key,
-           "the count is not stored under the plural relativedelta key of its own unit",
-           key={"function": f.key, "construct": "kwargs[unit + 's'] = float(num)"}, file=f.file, function=f.qual,
-           line=f.node.lineno)
-    # decade folding: years := 10*decades + years ; del decades
-    # the dict that is returned (robust to its local name)
-    rets = [n.value.id for n in iter_own_nodes(f.node) if isinstance(n, ast.Return) and isinstance(n.value, ast.Name)]
-    if not rets:
-        raise AnalysisError(rule, "get_kwargs does not return a local dict")
-    kw = rets[-1]
-    syms = {"D": {"%s['decades']" % kw}, "Y": {"%s.get('years', 0)" % kw, "%s['years']" % kw}}
-    fold = None
-    for n in iter_own_nodes(f.node):
-        if isinstance(n, ast.Assign) and ast.unparse(n.targets[0]) == "%s['years']" % kw:
-            fold = _linear(n.value, syms)
-            line = n.lineno
-        elif isinstance(n, ast.AugAssign) and ast.unparse(n.target) == "%s['years']" % kw and isinstance(n.op, ast.Add):
-            fold = _linear(n.value, syms)
-            if fold is not None:
-                fold["Y"] = fold.get("Y", 0) + 1
-            line = n.lineno
-    ok = fold is not None and fold.get("D") == 10 and fold.get("Y") == 1 and not fold.get(1)
-    chk.ob(rule, "decades are folded as years = 10*decades + years", ok,
-           "folding is %s" % fold,
-           key={"function": f.key, "construct": "years = 10*decades + years"}, file=f.file, function=f.qual,
-           line=f.node.lineno)
-    dels = [ast.unparse(t) for n in iter_own_nodes(f.node) if isinstance(n, ast.Delete) for t in n.targets]
-    chk.ob(rule, "the decades key is deleted before relativedelta", "%s['decades']" % kw in dels, "",
-           key={"function": f.key, "construct": "del kwargs['decades']"}, file=f.file, function=f.qual,
-           line=f.node.lineno)
-    # ... on every path on which the key exists: the deletion is guarded by key MEMBERSHIP only (a test on the value
-    # skips the count 0 and hands decades=0.0 to relativedelta -> TypeError), or it is an unconditional pop with a default
-    from ..core.ctx import conjuncts as _cj, enclosing_tests as _et
-    for n in iter_own_nodes(f.node):
-        if isinstance(n, ast.Delete) and any(ast.unparse(t) == "%s['decades']" % kw for t in n.targets):
-            guards = [(" ".join(ast.unparse(a).split()), p_) for t_, pol in _et(f.node, n) for a, p_ in _cj(t_, pol)]
-            import re as _re2
-            about_kw = [(g, p_) for g, p_ in guards if _re2.search(r"\b%s\b" % _re2.escape(kw), g)]
-            ok = all((g == "'decades' in %s" % kw and p_) or (g == "'decades' not in %s" % kw and not p_) for g, p_ in about_kw)
-            chk.ob(rule, "the decades key is removed whenever it is present (guard: key membership only)", ok,
-                   "guards %s: for some counts the key survives and reaches relativedelta(**kwargs), which rejects it" % guards,
-                   key={"function": f.key, "construct": "decades removal guard"}, file=f.file, function=f.qual, line=n.lineno)
-    # every (num, unit) match contributes (several units add up): a loop over PATTERN.findall
-    loops = [n for n in iter_own_nodes(f.node) if isinstance(n, ast.For)]
-    ok = any("findall" in ast.unparse(n.iter) or isinstance(n.iter, ast.Name) for n in loops) and \
-        any("PATTERN.findall" in ast.unparse(n) for n in iter_own_nodes(f.node) if isinstance(n, ast.Call))
-    chk.ob(rule, "get_kwargs loops over all PATTERN.findall matches", ok, "",
-           key={"function": f.key, "construct": "for num, unit in PATTERN.findall(...)"}, file=f.file,
-           function=f.qual, line=f.node.lineno)
-
-
-def r5(ctx, chk):
-    rule = "C04.R5"
-    f = ctx.ix.func(FP + ":FreshnessDateDataParser._parse_date")
-    from ..core.ctx import conjuncts, enclosing_tests
-
-    found = 0
-    for n in iter_own_nodes(f.node):
-        if isinstance(n, ast.For) and isinstance(n.iter, (ast.List, ast.Tuple)):
-            try:
-                order = list(ast.literal_eval(n.iter))
-            except Exception:
-                continue
-            if not set(order) & {"weeks", "months", "years"}:
-                continue
-            found += 1
-            chk.ob(rule, "period candidates are tried finest first: %s" % order, order == ["weeks", "months", "years"],
-                   "order of the period candidates changed",
-                   key={"function": f.key, "construct": "period order"}, file=f.file, function=f.qual, line=n.lineno)
-            has_break = any(isinstance(x, ast.Break) for x in ast.walk(n))
-            chk.ob(rule, "the first counted candidate wins (break)", has_break,
-                   "without the break the coarsest counted unit wins",
-                   key={"function": f.key, "construct": "period break"}, file=f.file, function=f.qual, line=n.lineno)
-            sing = any(isinstance(x, ast.Assign) and isinstance(x.value, ast.Subscript) and isinstance(x.value.slice, ast.Slice)
-                       and ast.unparse(x.value.slice) == ":-1" for x in ast.walk(n))
-            chk.ob(rule, "period is the singular of the matched key (k[:-1])", sing, "",
-                   key={"function": f.key, "construct": "period singular"}, file=f.file, function=f.qual, line=n.lineno)
-            guarded = False
-            for test, pol in enclosing_tests(f.node, n):
-                for a, p in conjuncts(test, pol):
-                    if isinstance(a, ast.Compare) and isinstance(a.left, ast.Constant) and a.left.value == "days" and (
-                            (p and isinstance(a.ops[0], ast.NotIn)) or (not p and isinstance(a.ops[0], ast.In))):
-                        guarded = True
-            chk.ob(rule, "week/month/year periods only when the phrase counts no days", guarded, "",
-                   key={"function": f.key, "construct": "period days guard"}, file=f.file, function=f.qual, line=n.lineno)
-    chk.floor(rule, found, 1, "period selection loops")
-    pname = _period_name(f)
-    init = [n for n in iter_own_nodes(f.node) if isinstance(n, ast.Assign) and ast.unparse(n.targets[0]) == pname
-            and isinstance(n.value, ast.Constant)]
-    chk.ob(rule, "default period is 'day'", any(n.value.value == "day" for n in init), "",
-           key={"function": f.key, "construct": "default period"}, file=f.file, function=f.qual, line=f.node.lineno)
-
-
-def _period_name(f):
-    """the local returned as the second element of `return <date>, <period>`"""
-    for n in iter_own_nodes(f.node):
-        if isinstance(n, ast.Return) and isinstance(n.value, ast.Tuple) and len(n.value.elts) == 2 and isinstance(n.value.elts[1], ast.Name):
-            return n.value.elts[1].id
-    return "period"
-
-
-def r6(ctx, chk):
-    rule = "C04.R6"
-    f = ctx.ix.func(FP + ":FreshnessDateDataParser.parse")
-    at = f.children.get("apply_time")
-    if at is None:
-        raise AnalysisError(rule, "parse.<locals>.apply_time not found")
-    p = at.params()
-    reps = [n for n in iter_own_nodes(at.node) if isinstance(n, ast.Call) and isinstance(n.func, ast.Attribute)
-            and n.func.attr == "replace" and ast.unparse(n.func.value) == p[0]]
-    ok = False
-    for r in reps:
-        kw = {k.arg: ast.unparse(k.value) for k in r.keywords}
-        if kw == {x: "%s.%s" % (p[1], x) for x in ("hour", "minute", "second", "microsecond")}:
-            ok = True
-    chk.ob(rule, "apply_time replaces exactly hour/minute/second/microsecond with the parsed time's fields", ok,
-           "the clock time of the phrase does not replace the time of day field by field",
-           key={"function": at.key, "construct": "replace(hour=..,minute=..,second=..,microsecond=..)"},
-           file=at.file, function=at.qual, line=at.node.lineno)
-    # the time comes from the phrase with counted units and ago/in removed
-    pt = ctx.ix.func(FP + ":FreshnessDateDataParser._parse_time")
-    t = ast.unparse(pt.node)
-    ok = "PATTERN.sub('', " in t and "time_parser(" in t
-    chk.ob(rule, "_parse_time strips the counted units and parses the rest with time_parser", ok, "",
-           key={"function": pt.key, "construct": "PATTERN.sub + time_parser"}, file=pt.file, function=pt.qual,
-           line=pt.node.lineno)
-    # RETURN_TIME_AS_PERIOD: period 'time' only when the time changed the date
-    ok = False
-    for n in iter_own_nodes(f.node):
-        if isinstance(n, ast.If) and "RETURN_TIME_AS_PERIOD" in ast.unparse(n.test):
-            if any(isinstance(x, ast.Assign) and ast.unparse(x.targets[0]) == _period_name(f) and isinstance(x.value, ast.Constant)
-                   and x.value.value == "time" for x in n.body):
-                ok = True
-    chk.ob(rule, "period becomes 'time' only under RETURN_TIME_AS_PERIOD", ok, "",
-           key={"function": f.key, "construct": "period time"}, file=f.file, function=f.qual, line=f.node.lineno)
-
-
-EN_CANON = {
-    # word: (direction, count, unit) as the property states them
-    "now": (0, 0, "second"), "today": (0, 0, "day"),
-    "yesterday": (-1, 1, "day"), "tomorrow": (+1, 1, "day"),
-    "last week": (-1, 1, "week"), "next week": (+1, 1, "week"),
-    "last month": (-1, 1, "month"), "next month": (+1, 1, "month"),
-    "last year": (-1, 1, "year"), "next year": (+1, 1, "year"),
-}
-
-
-def parse_canon(key, units):
-    """'in 1 day' / '2 week ago' -> (direction, count, unit) or None"""
-    toks = key.split()
-    d = 0
-    if toks and toks[0] == "in":
-        d = 1
-        toks = toks[1:]
-    if toks and toks[-1] == "ago":
-        if d:
-            return None
-        d = -1
-        toks = toks[:-1]
-    if len(toks) != 2 or toks[1] not in units:
-        return None
-    try:
-        n = float(toks[0])
-    except ValueError:
-        return None
-    return (0 if n == 0 else d, n, toks[1])
-
-
-def r7(ctx, chk):
-    rule = "C04.R7"
-    ld = ctx.memo("langdata", lambda: LangData(ctx.repo))
-    info = ld.locale_info("en")
-    units = _units(ctx)
-    where = {}
-    for k, words in info.get("relative-type", {}).items():
-        for w in words:
-            where.setdefault(w.lower(), []).append(k)
-    for w, (d, n, u) in EN_CANON.items():
-        keys = where.get(w, [])
-        got = [parse_canon(k, units) for k in keys]
-        ok = len(keys) == 1 and got[0] == (d, float(n), u)
-        chk.ob(rule, "en: %r is listed under a key meaning %+d x %d %s (found %s)" % (w, d, n, u, keys), ok,
-               "English fixed word maps to %s" % keys,
-               key={"locale": "en", "word": w}, file="dateparser/data/date_translation_data/en.py",
-               function="info['relative-type']", line=None)
-    # counted English patterns: 'N <unit> ago' / 'in N <unit>' exist for every unit, under their own key
-    rx = info.get("relative-type-regex", {})
-    import regex as re
-    for u in units:
-        for canon, probe in (("\\1 %s ago" % u, "3 %ss ago" % u), ("in \\1 %s" % u, "in 3 %ss" % u)):
-            pats = rx.get(canon, [])
-            ok = any(re.fullmatch(p, probe, re.I) for p in pats)
-            chk.ob(rule, "en: %r is matched by a pattern listed under %r" % (probe, canon), ok,
-                   "no English counted pattern for this unit/direction",
-                   key={"locale": "en", "word": canon}, file="dateparser/data/date_translation_data/en.py",
-                   function="info['relative-type-regex']", line=None)
-
-
-
-def unit_spelling_rule(ctx, chk, rule):
-    """`get_kwargs` turns the TEXT matched by the unit group of PATTERN into a relativedelta keyword (`unit + 's'`).  PATTERN is compiled
-    case-insensitively, so on its own it also accepts 'SECOND' or 'ſecond' (U+017F folds to s) - and relativedelta(**{'ſeconds': 1}) is a
-    TypeError.  What makes the keyword a real unit name is the word filter `_are_all_words_units`, which `_parse_date` consults first and
-    which matches each word case-SENSITIVELY against the same unit list.  Keep at least one of the two exact."""
-    from ..core.cfg import CFG
-    from ..core.rx import module_regex
-    ix = ctx.ix
-    m = ix.module(FP)
-    try:
-        pat, fl = module_regex(ix, m.name, "PATTERN")
-    except AnalysisError:
-        raise AnalysisError(rule, "freshness_date_parser.PATTERN is not a compile of a foldable pattern")
-    pattern_folds = "I" in (fl or "").replace("IGNORECASE", "I").replace("re.", "").replace("S", "").replace("U", "") or "IGNORECASE" in (fl or "")
-    f = ix.func(FP + ":FreshnessDateDataParser._are_all_words_units")
-    calls = [n for n in iter_own_nodes(f.node) if isinstance(n, ast.Call) and ast.unparse(n.func) in ("re.match", "re.fullmatch", "regex.match", "regex.fullmatch")]
-    if len(calls) != 1:
-        raise AnalysisError(rule, "_are_all_words_units: expected one re.match over the skip list, found %d" % len(calls))
-    c = calls[0]
-    flags = c.args[2] if len(c.args) > 2 else {k.arg: k.value for k in c.keywords}.get("flags")
-    ftxt = ast.unparse(flags) if flags is not None else ""
-    filter_folds = any(x in ftxt.replace("re.", "").replace("regex.", "").split("|") or x in [y.strip() for y in ftxt.replace("re.", "").split("|")] for x in ("I", "IGNORECASE")) \
-        or "(?i" in (fold_str(c.args[0], f, ix) or "")
     gk = ix.func(FP + ":FreshnessDateDataParser.get_kwargs")
     lowered = any(isinstance(n, ast.Call) and isinstance(n.func, ast.Attribute) and n.func.attr in ("lower", "casefold") for n in iter_own_nodes(gk.node))
     chk.ob(rule, "the text that becomes a relativedelta keyword is spelled exactly like a unit (PATTERN %s, word filter %s)" % (
